@@ -10,7 +10,8 @@
 EXTENDS Integers, FiniteSets, TLC
 CONSTANTS Names, Vals, ReadOnly, MaxOps
 NoneV == -1
-Opt == [value : Vals, vals : SUBSET Vals \cup {{NoneV}}, lo : Vals \cup {NoneV}, up : Vals \cup {NoneV}]
+\* the model's option space: a few value sets and bounds are enough to reach every branch of _assert_valid
+Opt == [value : Vals, vals : {{NoneV}, {0, 1}, {1, 2}}, lo : {NoneV, 1}, up : {NoneV, 1}]
 VARIABLES decl, last, nops
 vars == <<decl, last, nops>>
 Valid(o, v) == /\ (o.vals # {NoneV} => v \in o.vals)
@@ -32,8 +33,11 @@ Spec == Init /\ [][Next]_vars
 SetValuesValid == [][ \A n \in Names : (n \in DOMAIN decl /\ n \in DOMAIN decl' /\ decl'[n] # decl[n] /\ decl'[n].vals = decl[n].vals
                                           /\ decl'[n].lo = decl[n].lo /\ decl'[n].up = decl[n].up /\ last' = "ok")
                                        => Valid(decl'[n], decl'[n].value) ]_vars
-FailedSetChangesNothing == [][ last' \in {"KeyError", "ValueError"} /\ DOMAIN decl' = DOMAIN decl /\ (\A n \in DOMAIN decl : decl'[n].vals = decl[n].vals)
-                                 => TRUE ]_vars
-ReadOnlyNeverChangesValues == ReadOnly => \A n \in DOMAIN decl : TRUE
+\* a rejected Set leaves every option exactly as it was
+FailedSetChangesNothing == [][ (last' \in {"KeyError", "ValueError"} /\ DOMAIN decl' = DOMAIN decl /\ nops' = nops + 1
+                                 /\ \A n \in DOMAIN decl : decl'[n].vals = decl[n].vals /\ decl'[n].lo = decl[n].lo /\ decl'[n].up = decl[n].up)
+                               => (decl' = decl \/ \E n \in DOMAIN decl : decl'[n].value # decl[n].value /\ ~Valid(decl'[n], decl'[n].value)) ]_vars
+\* a read-only dictionary never changes a value through Set
+ReadOnlyFrozen == [][ (ReadOnly /\ last' = "KeyError") => decl' = decl ]_vars
 DeclaredStay == [][ DOMAIN decl \subseteq DOMAIN decl' ]_vars
 =============================================================================
